@@ -24,8 +24,21 @@ Definition C19_full (ext_df ext_bdf : dec -> option bfl) : Prop :=
 
 (* ---- what holds ---- *)
 
-(* Every integer destination (int8..int64, int), every numeric event form: whatever is stored
-   is exactly the value of the event.  No exclusion, no hypothesis on the parse. *)
+(* The builder consults the decimal -> binary parse on exactly these pairs: a DFloat or an
+   apd.Decimal into a big.Float, an apd.Decimal into an unsigned integer.  On every other
+   in-scope pair whatever is stored is exactly the value of the event - no exclusion, no
+   hypothesis.  (This covers what used to be six defect classes: OnNegativeInt >= 2^63,
+   UintToBigInt, negative decimals into unsigned destinations, the sign in
+   BigDecimalFloatToBigInt, big integers into float32.) *)
+Theorem C19_exact_without_parse :
+  forall ext_df ext_bdf max2 max10 s t v,
+    wf_src s = true -> in_scope s t = true -> consults_parse s t = false ->
+    conv ext_df ext_bdf max2 max10 s t = Stored v ->
+    mval_eq (stored_val v) (src_val s).
+Proof. exact conv_exact_no_parse. Qed.
+Print Assumptions C19_exact_without_parse.
+
+(* instances: every integer destination, big.Int, float32/float64 from integer events *)
 Theorem C19_int_destinations_exact :
   forall ext_df ext_bdf max2 max10 s w v,
     wf_src s = true ->
@@ -34,30 +47,35 @@ Theorem C19_int_destinations_exact :
 Proof. exact conv_exact_int. Qed.
 Print Assumptions C19_int_destinations_exact.
 
-(* All in-scope pairs outside the six defect classes named by [excluded]
-   (OnNegativeInt >= 2^63; odd OnPositiveInt >= 2^63 into big.Int; negative DFloat into unsigned;
-    negative apd.Decimal into unsigned; negative apd.Decimal into big.Int; big integer not
-    representable as float32 into float32), provided the decimal -> binary parse returned the
-   exact value whenever it was consulted (a decimal float into an unsigned destination through
-   the big.Float fallback, or into a big.Float). *)
+Theorem C19_bigint_destination_exact :
+  forall ext_df ext_bdf max2 max10 s v,
+    wf_src s = true ->
+    conv ext_df ext_bdf max2 max10 s TBigInt = Stored v ->
+    mval_eq (stored_val v) (src_val s).
+Proof. exact conv_exact_bigint. Qed.
+Print Assumptions C19_bigint_destination_exact.
+
+Theorem C19_float_destinations_exact :
+  forall ext_df ext_bdf max2 max10 s w v,
+    wf_src s = true -> src_is_integer_form s = true ->
+    conv ext_df ext_bdf max2 max10 s (TFloat w) = Stored v ->
+    mval_eq (stored_val v) (src_val s).
+Proof. exact conv_exact_float. Qed.
+Print Assumptions C19_float_destinations_exact.
+
+(* All in-scope pairs, provided the decimal -> binary parse returned the exact value whenever
+   it was consulted.  What this hypothesis excludes is exactly the remaining defect class: the
+   parse rounds (to DecimalDigitsToBits(NumDigits) bits for an apd.Decimal, to 63 bits for a
+   DFloat) and nothing checks the result against the decimal. *)
 Theorem C19_partial :
   forall ext_df ext_bdf max2 max10 s t v,
-    wf_src s = true -> in_scope s t = true -> excluded s t = false ->
+    wf_src s = true -> in_scope s t = true ->
     (forall d, s = SDec d -> ext_exact ext_df d) ->
     (forall d, s = SBigDec d -> ext_exact ext_bdf d) ->
     conv ext_df ext_bdf max2 max10 s t = Stored v ->
     mval_eq (stored_val v) (src_val s).
 Proof. exact conv_exact. Qed.
 Print Assumptions C19_partial.
-
-(* For events that are not decimal floats the parse is never consulted. *)
-Theorem C19_partial_nondecimal :
-  forall ext_df ext_bdf max2 max10 s t v,
-    wf_src s = true -> in_scope s t = true -> excluded s t = false -> src_is_decimal s = false ->
-    conv ext_df ext_bdf max2 max10 s t = Stored v ->
-    mval_eq (stored_val v) (src_val s).
-Proof. exact conv_exact_nondecimal. Qed.
-Print Assumptions C19_partial_nondecimal.
 
 (* mval_eq really is an equivalence (on finite values and infinities) *)
 Theorem C19_mval_eq_trans : forall x y z, mval_eq x y -> mval_eq y z -> mval_eq x z.
@@ -67,67 +85,11 @@ Theorem C19_mval_eq_sym : forall x y, mval_eq x y -> mval_eq y x.
 Proof. exact mval_eq_sym. Qed.
 Print Assumptions C19_mval_eq_sym.
 
-(* ---- what does not hold: one witness per defect class, whatever the parse does ---- *)
-
-(* OnNegativeInt(2^63) into uint64 stores +2^63 *)
-Theorem C19_negint_sign_lost_uint_refuted :
-  forall ext_df ext_bdf, violates ext_df ext_bdf (SNeg p63) (TUint I64).
-Proof. exact negint_sign_lost_uint. Qed.
-Print Assumptions C19_negint_sign_lost_uint_refuted.
-
-Theorem C19_negint_sign_lost_bigint_refuted :
-  forall ext_df ext_bdf, violates ext_df ext_bdf (SNeg (p63 + 5)) TBigInt.
-Proof. exact negint_sign_lost_bigint. Qed.
-Print Assumptions C19_negint_sign_lost_bigint_refuted.
-
-Theorem C19_negint_sign_lost_bigfloat_refuted :
-  forall ext_df ext_bdf, violates ext_df ext_bdf (SNeg p63) TBigFloat.
-Proof. exact negint_sign_lost_bigfloat. Qed.
-Print Assumptions C19_negint_sign_lost_bigfloat_refuted.
-
-Theorem C19_negint_sign_lost_float_refuted :
-  forall ext_df ext_bdf, violates ext_df ext_bdf (SNeg p63) (TFloat F64).
-Proof. exact negint_sign_lost_float. Qed.
-Print Assumptions C19_negint_sign_lost_float_refuted.
-
-(* OnPositiveInt(2^63+1) into big.Int stores 2^63 *)
-Theorem C19_posint_low_bit_lost_refuted :
-  forall ext_df ext_bdf, violates ext_df ext_bdf (SPos (p63 + 1)) TBigInt.
-Proof. exact posint_low_bit_lost. Qed.
-Print Assumptions C19_posint_low_bit_lost_refuted.
-
-(* DFloat -5 into uint64 stores 18446744073709551611 *)
-Theorem C19_decimal_negative_into_uint_refuted :
-  forall ext_df ext_bdf, violates ext_df ext_bdf (SDec (Dec true 5 0)) (TUint I64).
-Proof. exact decimal_negative_into_uint. Qed.
-Print Assumptions C19_decimal_negative_into_uint_refuted.
-
-(* apd.Decimal -5 into uint64 stores 18446744073709551611 *)
-Theorem C19_bigdecimal_negative_into_uint_refuted :
-  forall ext_df ext_bdf, violates ext_df ext_bdf (SBigDec (Dec true 5 0)) (TUint I64).
-Proof. exact bigdecimal_negative_into_uint. Qed.
-Print Assumptions C19_bigdecimal_negative_into_uint_refuted.
-
-(* apd.Decimal -5 into big.Int stores +5 *)
-Theorem C19_bigdecimal_sign_lost_bigint_refuted :
-  forall ext_df ext_bdf, violates ext_df ext_bdf (SBigDec (Dec true 5 0)) TBigInt.
-Proof. exact bigdecimal_sign_lost_bigint. Qed.
-Print Assumptions C19_bigdecimal_sign_lost_bigint_refuted.
-
-(* big integer 2^24+1 into float32 stores 2^24; 2^128 stores +Inf *)
-Theorem C19_bigint_rounded_float32_refuted :
-  forall ext_df ext_bdf, violates ext_df ext_bdf (SBigInt 16777217) (TFloat F32).
-Proof. exact bigint_rounded_float32. Qed.
-Print Assumptions C19_bigint_rounded_float32_refuted.
-
-Theorem C19_bigint_overflows_float32_refuted :
-  forall ext_df ext_bdf, violates ext_df ext_bdf (SBigInt (2 ^ 128)) (TFloat F32).
-Proof. exact bigint_overflows_float32. Qed.
-Print Assumptions C19_bigint_overflows_float32_refuted.
+(* ---- what does not hold ---- *)
 
 (* apd.Decimal 1e19 into uint64 stores 10376293541461622784, given that the library parses
    1e19 at 4 bits of precision with one correct rounding (checked against the library by the
-   ParseCase entries of the correspondence run) *)
+   ParseCase entries of the correspondence run)            [C19/bigdecimal->uint/inexact] *)
 Theorem C19_bigdecimal_rounded_into_uint_refuted :
   forall ext_df ext_bdf,
     ext_bdf (Dec false 1 19) = parse_int_dec (bigdec_prec (Dec false 1 19)) (Dec false 1 19) ->
@@ -135,8 +97,21 @@ Theorem C19_bigdecimal_rounded_into_uint_refuted :
 Proof. exact bigdecimal_rounded_into_uint. Qed.
 Print Assumptions C19_bigdecimal_rounded_into_uint_refuted.
 
-(* hence the property as stated is false for every pair of parse functions *)
-Theorem C19_full_refuted : forall ext_df ext_bdf, ~ C19_full ext_df ext_bdf.
+(* DFloat 0.1 into a big.Float: whatever the parse returns is stored, and no big.Float equals
+   one tenth.  No code reads AllowLossyFloatConversion, so this happens with the knob off too
+                                  [C19/decimal->bigfloat/rounded-with-lossy-conversion-disallowed] *)
+Theorem C19_decimal_tenth_into_bigfloat_refuted :
+  forall ext_df ext_bdf b,
+    ext_df (Dec false 1 (-1)) = Some b ->
+    violates ext_df ext_bdf (SDec (Dec false 1 (-1))) TBigFloat.
+Proof. exact decimal_tenth_into_bigfloat. Qed.
+Print Assumptions C19_decimal_tenth_into_bigfloat_refuted.
+
+(* hence the property as stated is false for the library's parse *)
+Theorem C19_full_refuted :
+  forall ext_df ext_bdf,
+    ext_bdf (Dec false 1 19) = parse_int_dec (bigdec_prec (Dec false 1 19)) (Dec false 1 19) ->
+    ~ C19_full ext_df ext_bdf.
 Proof. exact full_refuted. Qed.
 Print Assumptions C19_full_refuted.
 
@@ -151,7 +126,11 @@ Example C19_example_stored :
     = Stored (StInt 9223372036854775800) /\
   conv (fun _ => None) (fun _ => None) 166 50 (SBigFloat (BF true 3 62 64)) TBigInt
     = Stored (StBigInt (- 13835058055282163712)) /\
-  conv (fun _ => None) (fun _ => None) 166 50 (SNeg 5) (TFloat F32) = Stored (StFloat (FFin true 5 0)).
+  conv (fun _ => None) (fun _ => None) 166 50 (SNeg 5) (TFloat F32) = Stored (StFloat (FFin true 5 0)) /\
+  conv (fun _ => None) (fun _ => None) 166 50 (SNeg p63) (TInt I64) = Stored (StInt (- p63)) /\
+  conv (fun _ => None) (fun _ => None) 166 50 (SNeg (p63 + 5)) TBigInt = Stored (StBigInt (- (p63 + 5))) /\
+  conv (fun _ => None) (fun _ => None) 166 50 (SPos (p63 + 1)) TBigInt = Stored (StBigInt (p63 + 1)) /\
+  conv (fun _ => None) (fun _ => None) 166 50 (SBigDec (Dec true 5 0)) TBigInt = Stored (StBigInt (-5)).
 Proof. vm_compute. repeat split. Qed.
 
 (* values that are refused *)
@@ -160,7 +139,12 @@ Example C19_example_failed :
   conv (fun _ => None) (fun _ => None) 166 50 (SFloat 0x43e0000000000000%N) (TInt I64) = Failed /\
   conv (fun _ => None) (fun _ => None) 166 50 (SInt 16777217) (TFloat F32) = Failed /\
   conv (fun _ => None) (fun _ => None) 166 50 (SDec (Dec false 922337203685477581 1)) (TInt I64) = Failed /\
-  conv (fun _ => None) (fun _ => None) 166 50 (SNan false) TBigFloat = Failed.
+  conv (fun _ => None) (fun _ => None) 166 50 (SNan false) TBigFloat = Failed /\
+  conv (fun _ => None) (fun _ => None) 166 50 (SNeg p63) (TUint I64) = Failed /\
+  conv (fun _ => None) (fun _ => None) 166 50 (SDec (Dec true 5 0)) (TUint I64) = Failed /\
+  conv (fun _ => None) (fun _ => None) 166 50 (SBigDec (Dec true 5 0)) (TUint I64) = Failed /\
+  conv (fun _ => None) (fun _ => None) 166 50 (SBigInt 16777217) (TFloat F32) = Failed /\
+  conv (fun _ => None) (fun _ => None) 166 50 (SBigInt (2 ^ 128)) (TFloat F32) = Failed.
 Proof. vm_compute. repeat split. Qed.
 
 (* the hypotheses of C19_partial are satisfiable on a decimal that goes through the parse:
@@ -169,7 +153,7 @@ Proof. vm_compute. repeat split. Qed.
 Example C19_example_parse_exact :
   let d := Dec false 9223372036854775808 0 in
   let ext := parse_int_dec (bigdec_prec d) in
-  wf_src (SBigDec d) = true /\ excluded (SBigDec d) (TUint I64) = false /\
+  wf_src (SBigDec d) = true /\ consults_parse (SBigDec d) (TUint I64) = true /\
   ext_exact ext d /\
   conv ext ext 166 50 (SBigDec d) (TUint I64) = Stored (StUint 9223372036854775808).
 Proof.
